@@ -319,6 +319,20 @@ def evaluate(case):
     dbl = ref if ref[0] == "exc" else ("ok", ref[1] + ref[1])
     _cmp("routes.treelist_read", dbl, run(inc), out, "read twice into one list")
 
+    # a further read of ONE collection of the document into a list that already holds trees: the list grows by exactly that collection
+    def inc_collection(c):
+        tl = TreeList()
+        tl.read(data=text, schema=schema, **kw)
+        n2 = tl.read(data=text, schema=schema, collection_offset=c, **kw)
+        if n2 != sizes[c]:
+            raise AssertionError("read(collection_offset=%d) into a list holding %d trees returned %r; the collection has %d trees" % (c, total, n2, sizes[c]))
+        return _dumps(tl._trees)
+
+    if ref[0] == "ok":
+        for c in range(len(sizes)):
+            _cmp("routes.treelist_read", ("ok", ref[1] + ref[1][starts[c]:starts[c] + sizes[c]]), run(lambda: inc_collection(c)), out,
+                 "read(collection_offset=%d) into a list that holds the whole document" % c)
+
     # yielder
     def yl(k):
         ns = TaxonNamespace()
@@ -505,6 +519,9 @@ def evaluate_matrix(case):
         dskw["data_type"] = dt
     nm = case.get("n_matrices", 1)
     for off in range(nm):
+        if case.get("types"):
+            # blocks of several data types in one source: matrix_offset counts the blocks of the SOURCE, whatever their type
+            cls = MATRIX_CLASS[case["types"][off]]
         ref = run(lambda: M.observe_matrix(DataSet.get(data=text, schema=schema, **dskw).char_matrices[off]))
         alone = run(lambda: M.observe_matrix(cls.get(data=text, schema=schema, matrix_offset=off, **kw)))
         _cmp("routes.matrix", ref, alone, out, "%s.get(matrix_offset=%d) vs DataSet.get" % (cls.__name__, off))
@@ -552,8 +569,20 @@ def evaluate_matrix(case):
     return out, n[0]
 
 
+MIXED = ("#NEXUS\nBEGIN TAXA;\n DIMENSIONS NTAX=2;\n TAXLABELS A B;\nEND;\nBEGIN CHARACTERS;\n TITLE one;\n DIMENSIONS NCHAR=3;\n FORMAT DATATYPE=DNA;\n MATRIX\n A ACG\n B ACC\n ;\nEND;\n"
+         "BEGIN CHARACTERS;\n TITLE two;\n DIMENSIONS NCHAR=2;\n FORMAT DATATYPE=STANDARD SYMBOLS=\"01\";\n MATRIX\n A 01\n B 11\n ;\nEND;\n"
+         "BEGIN CHARACTERS;\n TITLE three;\n DIMENSIONS NCHAR=2;\n FORMAT DATATYPE=DNA;\n MATRIX\n A TT\n B TA\n ;\nEND;\n"
+         "BEGIN CHARACTERS;\n TITLE four;\n DIMENSIONS NCHAR=4;\n FORMAT DATATYPE=DNA;\n MATRIX\n A GGGG\n B GGGA\n ;\nEND;\n")
+
+
 def matrix_cases():
-    cases = []
+    cases = [dict(kind="matrix", schema="nexus", name="nexus:mixed-types", data_type="dna", text=MIXED, opts={}, n_matrices=4,
+                  types=["dna", "standard", "dna", "dna"])]
+    try:
+        cases.append(dict(kind="matrix", schema="nexml", name="nexml<-nexus:mixed-types", data_type="dna",
+                          text=DataSet.get(data=MIXED, schema="nexus").as_string(schema="nexml"), opts={}, n_matrices=4, types=["dna", "standard", "dna", "dna"]))
+    except Exception:
+        pass
     for schema, name, dt, text, kw in MATRIX_DOCS:
         cases.append(dict(kind="matrix", schema=schema, name="%s:%s" % (schema, name), data_type=dt, text=text, opts=kw,
                           n_matrices=(2 if name == "two-blocks" else 1)))
